@@ -167,6 +167,10 @@ def run_schedule(lab, sched, program, prefix, rng=None, max_steps=600, variant="
 
 
 def judge(sh, res, program, record):
+    if not res["spinner_registered"] and res["error"] is not None and not res["aborted"] and type(res["error"]).__name__ not in [a for k, a in program if k == "raise"]:
+        # the automatic mode itself failed before any spinner existed
+        sh.violate("unexpected-exception", record, "auto() raised %r" % (res["error"],))
+        return
     if not res["spinner_registered"]:
         sh.inconclusive_because("the spinner thread never registered with the scheduler (component no longer uses threading.Thread?)")
         return
